@@ -20,7 +20,7 @@ def enum_table(res, maxn, maxp):
         tab[(n, p, me, s)] = v.split()
     return tab, None
 
-def oracle(tab, maxn, maxp, shapes=None):
+def oracle(tab, maxn, maxp, shapes=None, place=None):
     """The clauses of C04, evaluated on the next-hop tables of the compiled router.
     Returns (number of routes checked, list of failures (dict))."""
     fails, nroutes, nontrivial = [], 0, 0
@@ -29,6 +29,7 @@ def oracle(tab, maxn, maxp, shapes=None):
         return None if h == 'E' else int(h)
     for (n, p) in (shapes if shapes is not None else [(a, b) for a in range(1, maxn + 1) for b in range(1, maxp + 1)]):
         N = n * p
+        nd, lc = place if place is not None else ((lambda x: x // p), (lambda x: x % p))      # node and on-node index of a rank
         offpairs = {1: set(), 2: set()}
         nodepair = {}
         for s in (0, 1, 2):
@@ -51,14 +52,14 @@ def oracle(tab, maxn, maxp, shapes=None):
                         kinds = []
                         prev = src
                         for h in route:
-                            off = (prev // p) != (h // p)
+                            off = nd(prev) != nd(h)
                             kinds.append('off' if off else 'on')
                             if off and s in (1, 2):
-                                if prev % p != h % p:
+                                if lc(prev) != lc(h):
                                     bad = 'off-node hop %d->%d joins different on-node indices' % (prev, h)
                                 offpairs[s].add((prev, h))
                                 if s == 2:
-                                    nodepair.setdefault((prev // p, h // p), set()).add((prev, h))
+                                    nodepair.setdefault((nd(prev), nd(h)), set()).add((prev, h))
                             prev = h
                         if len(route) > 1:
                             nontrivial += 1
@@ -174,6 +175,48 @@ def layout_check(tab, tier):
                 fails += [dict(f, what=f['what'] + ' (on the layout built by ygm::comm for %d nodes x %d ranks)' % (nn, ppn)) for f in oracle(sub, nn, ppn, shapes=[(nn, ppn)])[2]]
             except Exception as ex:
                 fails.append({'what': 'route oracle failed on the real tables of %d x %d: %r' % (nn, ppn, ex), 'level': 'model'})
+    # non-block placements (round-robin, irregular): the tables are those of the placement (nodes ordered by their lowest rank) and
+    # the clauses of C04 hold on the next hops the real router computes from them
+    placements = [(3, 2, [0, 1, 2, 0, 1, 2]), (3, 2, [0, 1, 1, 2, 0, 2]), (4, 2, [0, 1, 2, 3, 3, 2, 1, 0]), (2, 3, [1, 0, 0, 1, 1, 0])]
+    if tier != 'quick':
+        placements += [(5, 2, [x % 5 for x in range(10)]), (3, 3, [0, 1, 2, 2, 1, 0, 0, 1, 2]), (4, 3, [0, 1, 2, 3, 3, 2, 1, 0, 0, 1, 2, 3]), (2, 4, [0, 1, 1, 0, 0, 1, 1, 0])]
+    for i, (nn, ppn, lab) in enumerate(placements):
+        size = nn * ppn
+        order = []
+        for x in lab:
+            if x not in order:
+                order.append(x)
+        members = {x: [q for q in range(size) if lab[q] == x] for x in order}
+        nd = lambda x: order.index(lab[x])
+        lc = lambda x: members[lab[x]].index(x)
+        rk = lambda a, l: members[order[a]][l]
+        r = simrun(exe, size, [], ppn=ppn, placement=lab, seed=31 + i, policy='uniform', wall=60, env={'YGM_COMM_ROUTING': ['NONE', 'NR', 'NLNR'][i % 3]})
+        if r['verdict'] != 'ok':
+            fails.append({'what': 'layout_enum with ranks placed on nodes %s ended with %s %s' % (lab, r['verdict'], r['detail']), 'cmd': r['cmd']}); continue
+        sub = {}
+        for l in r['out']:
+            if l.startswith('L ') and ':' in l:
+                me = int(l.split()[1])
+                parts = [x.split() for x in l.split(':', 1)[1].split('|')]
+                want = [[str(size), str(nn), str(ppn), str(nd(me)), str(lc(me))],
+                        [str(rk(nd(me), k)) for k in range(ppn)], [str(rk(a, lc(me))) for a in range(nn)],
+                        [str(nd(x)) for x in range(size)], [str(lc(x)) for x in range(size)]]
+                n += 1
+                names = ['(comm_size, node_size, local_size, node_id, local_id)', 'local_ranks', 'strided_ranks', 'rank_to_node', 'rank_to_local']
+                for nm, g, w in zip(names, parts, want):
+                    if g != w:
+                        fails.append({'what': 'layout of rank %d with ranks placed on nodes %s: %s is %s, the placement gives %s' % (me, lab, nm, g, w), 'cmd': r['cmd'], 'level': 'model'})
+            elif l.startswith('H ') and ':' in l:
+                t = l.split(':', 1)[0].split()
+                sub[(nn, ppn, int(t[1]), int(t[2]))] = l.split(':', 1)[1].split()
+                n += 1
+        if all((nn, ppn, me, sc) in sub for me in range(size) for sc in range(3)):
+            try:
+                fails += [dict(f, what=f['what'] + ' (ranks placed on nodes %s)' % lab, cmd=r['cmd']) for f in oracle(sub, nn, ppn, shapes=[(nn, ppn)], place=(nd, lc))[2]]
+            except Exception as ex:
+                fails.append({'what': 'route oracle failed on the real tables of placement %s: %r' % (lab, ex), 'level': 'model'})
+        else:
+            fails.append({'what': 'layout_enum printed no complete next-hop table for placement %s' % lab, 'level': 'model'})
     return n, fails
 
 def run(tier, seed, replay=None):
